@@ -4,7 +4,7 @@ from checklib.core import enc, run_pair, cmp_tokens, tok_to_float, driver_path
 import subprocess
 
 ID = 'C13'
-LEAN_DEPS = ['RvModel.ExtInst', 'RvModel.Lemmas.C13A', 'RvModel.Hand.DispatchAll']
+LEAN_DEPS = ['RvModel.ExtInst', 'RvModel.Lemmas.C13A', 'RvModel.Lemmas.C13B', 'RvModel.Hand.Samplers', 'RvModel.Hand.DispatchAll']
 TRUSTED = ['carrier X (IEEE special values over exact reals, one zero, no rounding): RvModel/ExtInst.lean',
            'Spec/C13.lean reference definitions (max-shifted log-sum-exp)']
 ASSUMPTIONS = ['binary64 rounding of finite values is not modelled; sampled against the Spec with a few-ulp tolerance']
@@ -30,7 +30,70 @@ def special_real(rng):
     return rng.uniform(-60, 60) if r < 0.8 else rng.choice([-1, 1]) * math.exp(rng.uniform(-20, 8))
 
 
+def sampler_run(tier, seed):
+    """hand models of the index samplers vs the implementation under scripted generator words (exact), and the
+    property itself on the implementation: index in range, weight of the index positive"""
+    from props import cases_c13b
+    lines = cases_c13b.cases(seed + 20260930, 150 if tier == 'quick' else 2500)
+    impl, model = run_pair(lines)
+    obligations = {}
+    failures = []
+    for line, a, b in zip(lines, impl, model):
+        op = line.split()[0]
+        o = obligations.setdefault(op, {'name': f'corr:{op}', 'kind': 'corr', 'ok': True, 'site': op, 'detail': '', 'cases': []})
+        if b == 'NOOP' or b.startswith('BAD') or a == 'NOOP':
+            continue
+        ok, detail = cmp_tokens(a, b, 1e-13, 0.0)
+        if not ok and op == 'ln_pflips':
+            # fused multiply-add in logsumexp (Rust) vs x*a+b (model): accept iff the fused prediction explains the answer
+            try:
+                ok = cases_c13b.predict_ln_pflips(line, True) == a
+            except Exception:
+                ok = False
+        if not ok:
+            o['ok'] = False
+            if len(o['cases']) < 3:
+                o['cases'].append({'line': line, 'impl': a, 'model': b})
+            o['detail'] = f'{line[:160]} impl={a[:40]} model={b[:40]}'
+        # the property on the implementation: samplers never panic and never return a zero-weight index
+        if op in ('pflip', 'pflips', 'ln_pflip', 'ln_pflips', 'gumbel_pflip'):
+            toks = line.split()
+            n = int(toks[2][1:])
+            ws = [tok_to_float(t) for t in toks[3:3 + n]]
+            zero = (lambda w: w == NINF) if op.startswith('ln_') else (lambda w: w == 0.0)
+            valid = all((w == w and (w >= 0 or op.startswith('ln_'))) and abs(w) != float('inf') or (op.startswith('ln_') and w == NINF) for w in ws) \
+                and any(not zero(w) for w in ws)
+            supplied_sum = op == 'pflip' and toks[3 + n] == 'S'
+            if op == 'ln_pflips' and toks[3 + n] == 'T':
+                # `normed = true` is a promise of the caller: only normalised log-weights are valid input
+                tot = sum(math.exp(w) for w in ws if w != NINF and w < 700)
+                valid = valid and abs(tot - 1.0) < 1e-9
+            if not valid or supplied_sum:
+                continue
+            wi = max(j for j, t in enumerate(toks) if t.startswith('L'))
+            info = {'site': op, 'case': line, 'impl': a, 'weights_n': n, 'n_zero': sum(1 for w in ws if zero(w)),
+                    'words': [int(t) for t in toks[wi + 1:]], 'normed_false': ' F ' in line}
+            if a in ('PANIC', 'HANG'):
+                failures.append(dict(info, expected='an index (never a panic) for valid weights', observed='panic', detail=''))
+            else:
+                idx = [int(t) for t in a.split() if not t.startswith('L')]
+                bad = [i for i in idx if i >= n or zero(ws[i])]
+                if bad:
+                    failures.append(dict(info, expected='index with positive weight', observed='zero_weight_index', detail=f'indices {bad[:3]}'))
+    return list(obligations.values()), failures, len(lines)
+
+
 def extra_run(man, tier, seed):
+    out = extra_run0(man, tier, seed)
+    obs, fails, n = sampler_run(tier, seed)
+    out['obligations'] += obs
+    out['failures'] += fails
+    out['stats']['evaluations'] += n
+    out['stats']['distinct_nontrivial'] += n
+    return out
+
+
+def extra_run0(man, tier, seed):
     rng = random.Random(seed * 17 + 3)
     n = 400 if tier == 'quick' else 20000
     impl_lines, spec_lines, sites = [], [], []
@@ -76,8 +139,16 @@ def _near_zero(f):
     return abs(b) <= 0.25 and abs(a - b) <= 4.5e-16
 
 
+def _words(f):
+    return f.get('words', [])
+
+
 INPUT_CLASSES = {
     'result_near_zero': _near_zero,
+    # Uniform::new(0,1) maps words < 2^12 to the variate 0; bisection (more than 9 weights) then returns index 0
+    'variate_zero_leading_zero_weight': lambda f: f.get('weights_n', 0) > 9 and any(w < 4096 for w in _words(f)),
+    'gumbel_degenerate': lambda f: f.get('n_zero', 0) >= 1 or any(w < 2048 for w in _words(f)),
+    'open01_top': lambda f: any(w >= (1 << 64) - (1 << 13) for w in _words(f)),
     'both_ninf': lambda f: len(f.get('args', [])) == 2 and all(x == NINF for x in f['args']),
     'pinf_arg': lambda f: any(x == float('inf') for x in f.get('args', [])),
 }
